@@ -100,13 +100,22 @@ def rule_wire(ctx):
     # read_txs / read_u8_vec / read_256hash / read_block
     rt = prog.one(R + 'read_txs')
     ctx.touch(rt)
-    ctx.check('wire', 'read_txs:count-times-read_tx', canon(rt.ret_expr()) == 'collect(map(Range::Range{start: 0, end: a2}, closure:{closure#0}))', rt, canon(rt.ret_expr()))
-    cl = util.only_closure(prog, rt)
-    ctx.touch(cl)
-    rd = [c for c in cl.calls if wire.is_read(c)]
-    ctx.check('wire', 'read_txs:item=read_tx', len(rd) == 1 and mir.method_name(rd[0].name) == 'read_tx' and len(cl.calls) == 1, cl, 'closure reads exactly one tx')
+    # read_txs = count x read_tx, in order, errors propagated; the loop may be `for _ in 0..count` with push or a lazily
+    # mapped range that is collected into Result<Vec<_>> (wire.grammar flattens both to the same items)
+    titems, tlabels = wire.grammar(rt)
+    tsh = wire.shape(titems)
+    ctx.check('wire', 'read_txs:count-times-read_tx', len(tsh) == 1 and list(tsh[0][5]) == ['Range::Range{start: 0, end: a2}'], rt,
+              'read_tx is read for %s' % [list(i[5]) for i in tsh])
+    ctx.check('wire', 'read_txs:item=read_tx', len(tsh) == 1 and tsh[0][1] == 'read_tx' and not [g for g in tsh[0][6] if 'next(' not in g], rt, 'each iteration reads exactly one tx: %s' % [(i[1], i[6]) for i in tsh])
     co = [c for c in rt.calls if mir.method_name(c.name) == 'collect']
-    ctx.check('wire', 'read_txs:sequential-collect', len(co) == 1 and 'rayon' not in co[0].name and co[0].gargs[-1].startswith('std::result::Result<std::vec::Vec<'), rt, 'collect::<%s>' % (co[0].gargs[-1][:60] if co else '?'))
+    if titems and titems[0][7].body is rt:
+        seq_ok = util.result_is_consumed(rt, titems[0][7]) and not [c for c in rt.calls if 'rayon' in c.name]
+        how = 'loop with `?`'
+    else:
+        seq_ok = len(co) == 1 and 'rayon' not in co[0].name and co[0].gargs[-1].startswith('std::result::Result<std::vec::Vec<') and util.result_is_consumed(rt, co[0]) or \
+            (len(co) == 1 and 'rayon' not in co[0].name and co[0].gargs[-1].startswith('std::result::Result<std::vec::Vec<') and canon(rt.ret_expr()).startswith('collect('))
+        how = 'collect::<%s>' % (co[0].gargs[-1][:60] if co else '?')
+    ctx.check('wire', 'read_txs:sequential-collect', bool(seq_ok), rt, how)
     rv = prog.one(R + 'read_u8_vec')
     ctx.touch(rv)
     ex = [c for c in rv.calls if mir.method_name(c.name) == 'read_exact']
